@@ -85,11 +85,56 @@ package pot
 //@      ll.levels[k].Wager == ll.levels[k].Level - ite(k == 0, 0, ll.levels[k - 1].Level)
 //@   loop 3 invariant [C16] forall k :: 0 <= k && k <= rangeindex ==> ll.levels[k].Total == umul(len(ll.levels[k].Contributors), ll.levels[k].Wager)
 
-// GetPots: assumed contract (body not verified: its full statement is covered by the bounded stand-in of C16)
+// GetPots (C16): the published pots. Proved: every pot is a fresh object with a contributor map and a non-empty list of
+// the levels merged into it; published levels are strictly increasing; a pot's wager is the step from the previous
+// published level to its own; the level list itself is not touched. (Totals per pot, the eligible sets and the
+// strict shrinking are covered by the bounded stand-in of C16.)
+// what the levels up to amount x hold together (C16: a pot's total is what was put in between the previous published level and its own)
+//@ fun SUMLE(ll *LevelList, k int, x int64) int = ite(k <= 0, 0, SUMLE(ll, k - 1, x) + ite(ll.levels[k - 1].Level <= x, ll.levels[k - 1].Total, 0))
+//@ lemma SUMLE_step(ll *LevelList, k int, x int64) for SUMLE induction k props C16 :
+//@      (forall a, b :: 0 <= a && a < b && b < len(ll.levels) ==> ll.levels[a].Level < ll.levels[b].Level)
+//@      && (forall a :: 0 <= a && a < len(ll.levels) ==> ll.levels[a].Level >= 0) && k <= len(ll.levels)
+//@      ==> (forall i :: 0 <= i && i < len(ll.levels) ==>
+//@             SUMLE(ll, k, ll.levels[i].Level) == SUMLE(ll, k, ite(i == 0, 0 - 1, ll.levels[i - 1].Level)) + ite(i < k, ll.levels[i].Total, 0))
+// (frame: the sums do not depend on memory allocated later - the merged pots' own level lists)
+//@ lemma SUMLE_same(ll *LevelList, k int, x int64) for SUMLE induction k props C16 :
+//@      (forall i :: 0 <= i && i < k ==> ll.levels[i] == old(ll.levels[i]) && ll.levels[i].Level == old(ll.levels[i].Level) && ll.levels[i].Total == old(ll.levels[i].Total))
+//@      ==> (forall y :: SUMLE(ll, k, y) == old(SUMLE(ll, k, y)))
+//@ pred POTOK(p) = p != nil && p.Contributors != nil && len(p.Levels) >= 1
 //@ func (*LevelList).GetPots(ll) (res)
-//@   trusted
-//@   requires WFLL(ll)
-//@   modifies Pot, Level, map(map[int]int64), elems(*Level), elems(*Pot), elems(int)
-//@   allocs
+//@   props C16 C01
+//@   requires LLINV(ll)
+//@   modifies Pot, map(map[int]int64), elems(*Level), elems(*Pot)
+//@   allocs Pot, map(map[int]int64), elems(*Level), elems(*Pot)
 //@   ensures WFLL(ll)
 //@   ensures forall k :: 0 <= k && k < len(res) ==> res[k] != nil
+//@   ensures [C16] forall k :: 0 <= k && k < len(res) ==> POTOK(res[k]) && fresh(res[k])
+//@   ensures [C16] forall a, b :: 0 <= a && a < b && b < len(res) ==> res[a].Level < res[b].Level
+//@   ensures [C16] forall k :: 0 <= k && k < len(res) ==> res[k].Wager == res[k].Level - ite(k == 0, 0, res[k - 1].Level)
+//@   ensures [C16] forall k :: 0 <= k && k < len(res) ==> res[k].Total ==
+//@             SUMLE(ll, len(ll.levels), res[k].Level) - SUMLE(ll, len(ll.levels), ite(k == 0, 0 - 1, res[k - 1].Level))
+//@   ensures [C16] len(res) <= len(ll.levels) && (len(ll.levels) > 0 ==> len(res) > 0 && res[len(res) - 1].Level == ll.levels[len(ll.levels) - 1].Level)
+//@   -- loop 1 (one pot per level) with its inner loop 2 (non-folded contributors)
+//@   loop 1 invariant len(origPots) == rangeindex + 1
+//@   loop 1 invariant forall k :: 0 <= k && k <= rangeindex ==> POTOK(origPots[k]) && fresh(origPots[k]) && fresh(origPots[k].Contributors)
+//@             && origPots[k].Level == ll.levels[k].Level && origPots[k].Wager == ll.levels[k].Wager && origPots[k].Total == ll.levels[k].Total
+//@   loop 1 invariant forall a, b :: 0 <= a && a < b && b <= rangeindex ==> origPots[a] != origPots[b] && origPots[a].Contributors != origPots[b].Contributors
+//@   loop 2 invariant POTOK(p) && fresh(p) && fresh(p.Contributors) && p.Level == l.Level && p.Wager == l.Wager && p.Total == l.Total
+//@   loop 2 invariant forall k :: 0 <= k && k < len(origPots) ==> origPots[k] != p && origPots[k].Contributors != p.Contributors
+//@   -- loop 3 (merge adjacent pots with equally many eligible players) with its inner loop 4 (add up the merged amounts)
+//@   loop 3 invariant forall k :: 0 <= k && k < len(origPots) ==> POTOK(origPots[k]) && fresh(origPots[k])
+//@   loop 3 invariant forall k :: rangeindex < k && k < len(origPots) ==> origPots[k].Level == ll.levels[k].Level && origPots[k].Wager == ll.levels[k].Wager && origPots[k].Total == ll.levels[k].Total
+//@   loop 3 invariant len(pots) <= rangeindex + 1 && (rangeindex < 0 ==> len(pots) == 0) && (rangeindex >= 0 ==> len(pots) >= 1 && prev == pots[len(pots) - 1])
+//@   loop 3 invariant forall j :: 0 <= j && j < len(pots) ==> POTOK(pots[j]) && fresh(pots[j])
+//@   loop 3 invariant forall j, k :: 0 <= j && j < len(pots) && rangeindex < k && k < len(origPots) ==> pots[j] != origPots[k]
+//@   loop 3 invariant forall a, b :: 0 <= a && a < b && b < len(pots) ==> pots[a] != pots[b] && pots[a].Level < pots[b].Level
+//@   loop 3 invariant rangeindex >= 0 ==> pots[len(pots) - 1].Level == ll.levels[rangeindex].Level
+//@   loop 3 invariant forall j :: 0 <= j && j < len(pots) ==> pots[j].Wager == pots[j].Level - ite(j == 0, 0, pots[j - 1].Level)
+//@   loop 3 invariant forall a :: 0 <= a && a < len(ll.levels) ==> ll.levels[a].Level >= 0
+//@   -- (naming the sum once outside a quantifier is what makes govc instantiate lemma SUMLE_step for this level list)
+//@   loop 3 invariant [C16] SUMLE(ll, len(ll.levels), 0) == SUMLE(ll, len(ll.levels), 0)
+//@   -- (lemma SUMLE_step at the level the loop looks at next)
+//@   loop 3 invariant [C16] rangeindex + 1 < len(ll.levels) ==> SUMLE(ll, len(ll.levels), ll.levels[rangeindex + 1].Level)
+//@             == SUMLE(ll, len(ll.levels), ite(rangeindex + 1 == 0, 0 - 1, ll.levels[rangeindex].Level)) + ll.levels[rangeindex + 1].Total
+//@   loop 3 invariant [C16] forall j :: 0 <= j && j < len(pots) ==> pots[j].Total ==
+//@             SUMLE(ll, len(ll.levels), pots[j].Level) - SUMLE(ll, len(ll.levels), ite(j == 0, 0 - 1, pots[j - 1].Level))
